@@ -66,3 +66,7 @@ Lemma src_crc_table_built : py_crc_table = map (fun i => fst (iter_bit_step 8 (0
 Proof.
   rewrite py_crc_table_is_model_table. unfold crc_table. apply map_ext. intros i. symmetry. apply iter_bit_step_crc_bits.
 Qed.
+
+(* dheat.py builds its packets itself: its padding rule, translated from the current source (T1b), is the model's pad_len - so the framing theorems cover those packets too *)
+Lemma tie_dheat_padding : forall n, pad_len n = src_dheat_padding n.
+Proof. intros n. unfold pad_len, src_dheat_padding. cbv zeta. destruct (- (n + 5) mod 8 <? 4); reflexivity. Qed.
